@@ -33,8 +33,8 @@ CHECKS = {
          "Exploration: literals printed by the harness's own routines must parse to exactly the value (ints over the whole i128 range incl. limits +-1, float bits, decimal mantissa+scale, string contents); words near keywords must be classified as the reference lexer does; two random layouts of one token sequence must give the same tree.",
          "Trusts std's f64 parsing as the IEEE reference and the harness's digit/escape printers; decimal literals beyond the 96-bit mantissa are left to C06 (totality only).",
          "DESIGN.md §4 C08"),
- "C14": ("property-based testing with a constructive oracle: rule texts assembled from generated line scripts (comment lines anywhere, metadata items, expression), expected name/description/metadata/expression known by construction",
-         "Exploration: seeded random line scripts; Rule::parse's name(), description(), iter_metadata() and expr() (or its error) are compared with what the script was built from.",
+ "C14": ("property-based testing with a constructive oracle (rule texts assembled from generated line scripts: comment lines anywhere, metadata items, expression; expected name/description/metadata/expression known by construction) + exhaustive token-level differential of the rule grammar against a reference rule parser (all extensions of viable prefixes over a 16-symbol alphabet incl. @ ; :)",
+         "Exploration: every token sequence up to length 8 (quick) / 9 (thorough, sampled beyond the budget) extending a viable prefix must be accepted/rejected exactly as the reference derivation says, with the same name, metadata (last occurrence wins) and expression, and MissingRuleName exactly when no @name item is present; then seeded random line scripts: Rule::parse's name(), description(), iter_metadata() and expr() (or its error) are compared with what the script was built from.",
          "Trusts the script assembler (harness/src/props/c14.rs) and, for the expression part, Expr::parse as stated by the property.",
          "DESIGN.md §4 C14"),
  "C16": ("property-based round-trip testing: Expr::parse(&e.to_string()) == e over exhaustive depth-2 families, literal-leaf families and seeded random parser-image trees; metamorphic evaluation check on a sample",
@@ -54,7 +54,7 @@ CHECKS = {
          "Suspension points exist only inside user functions (owned by the harness); failure plans are stateless so a history-independent baseline exists.",
          "DESIGN.md §4 C12"),
  "C13": ("property-based differential testing of the serializer: generated values of all 29 serde data-model kinds through a hand-written Serialize (incl. failing ones); oracles = prescribed faithful image, serde_json::to_value, panic-catching totality",
-         "Exploration: an exhaustive list of every kind at every limit (alone and inside every wrapper kind) and seeded random nested values; the image must equal the prescribed one (or be an error where prescribed), equal serde_json's image on JSON-representable data, and never panic; the same through RuleSet::evaluate(&T).",
+         "Exploration: an exhaustive list of every kind at every limit (alone and inside every wrapper kind), 71 real-world Serialize implementations (serde-derive with rename/skip/flatten/tag/untagged attributes, std, chrono and serde_json types, failing ones) and seeded random nested values; the image must equal the prescribed one (or be an error where prescribed), equal serde_json's image on JSON-representable data, and never panic; the same through RuleSet::evaluate(&T).",
          "Trusts serde_json as reference image and the model in harness/src/sval.rs.",
          "DESIGN.md §4 C13"),
  "C15": ("stateful model-based property testing of the builder: generated histories of builder calls against a model (ordered rule names, function set, symbol map), name sweep with an independent Unicode identifier oracle (unicode-ident), probe rules on the built ruleset",
